@@ -6,10 +6,11 @@ statements, each with a target table and a spelling of that target); the expecte
 Tables the script never targets must equal the result of the same script without the ALTER / INDEX statements.
 A statement naming a table that the script does not define must raise.
 
-Input classes on which the unchanged tree is known to violate the statement get their own narrow witness class,
-decided from the generated INPUT (see _Script.defects):
-  c04:index-desc-keyword-not-upper-case                 CREATE INDEX ... (x desc)
-  c04:add-after-removal-of-column-named-in-earlier-add  ADD x; DROP COLUMN x; ADD y   (x comes back)
+When one (schema, table) identity is registered twice (DROP TABLE t; CREATE TABLE t ... / an older CREATE TABLE t), the
+statements that follow land on the LATEST definition and the earlier entity stays as parsed alone.
+
+Two input families that used to be defects of the library (CREATE INDEX ... (x desc); ADD x, DROP COLUMN x, ADD y brought x
+back) are repaired in /repo (25def03, 7fc4411); they are still generated, as ordinary asserted cases.
 """
 import itertools
 
@@ -29,9 +30,6 @@ CHECKS = ["%s > 0", "%s >= 18 AND %s < 65", "%s <> 1"]
 FRESH = ["extra", "total", "created_on", "zip", "ratio", "memo", "Phone", "lvl", "k2", "updated_by", "is_open", "src"]
 SPELLINGS = [(q, c) for q in range(4) for c in range(3)]
 MODIFY_SYNTAX = ["MODIFY COLUMN", "MODIFY", "ALTER COLUMN"]
-
-DEFECT_INDEX_CASE = "c04:index-desc-keyword-not-upper-case"
-DEFECT_GHOST = "c04:add-after-removal-of-column-named-in-earlier-add"
 
 
 def _norm(x):
@@ -62,7 +60,8 @@ def _col(name_txt, ti, opts, oi):
 class _Table:
     def __init__(self, schema_bare, name_bare, decl_sp, colspecs, layout=0, pk_clause=False):
         """decl_sp = (schema spelling, name spelling) used in the CREATE; colspecs = [(name_txt, type idx, option idx)];
-        pk_clause: a table-level PRIMARY KEY clause over the first column when that column is declared NOT NULL (column views unaffected)"""
+        pk_clause: True (first column) or a list of column positions: a table-level PRIMARY KEY clause over those of them that are
+        declared NOT NULL (so the column views are unaffected)"""
         self.schema_bare, self.name_bare = schema_bare, name_bare
         self.schema = _spell(schema_bare, decl_sp[0]) if schema_bare is not None else None
         self.name = _spell(name_bare, decl_sp[1])
@@ -72,16 +71,17 @@ class _Table:
             t, v = _col(n, ti, OPTS_CREATE, oi)
             texts.append(t)
             self.cols.append(v)
-        if pk_clause and colspecs[0][2] == 1:
-            texts.append("PRIMARY KEY (%s)" % colspecs[0][0])
+        pk = [colspecs[j][0] for j in ([0] if pk_clause is True else (pk_clause or [])) if colspecs[j][2] == 1]
+        if pk:
+            texts.append("PRIMARY KEY (%s)" % ", ".join(pk))
         full = (self.schema + "." if self.schema is not None else "") + self.name
         if layout == 0:
             self.create = "CREATE TABLE %s (\n    %s\n);" % (full, ",\n    ".join(texts))
         else:
             self.create = "CREATE TABLE %s (%s);" % (full, ", ".join(texts))
         self.uniques, self.primary_keys, self.checks, self.defaults, self.fks, self.index = [], [], [], [], [], []
-        self.added = []     # records of earlier ADD column (the column object itself) / ADD FOREIGN KEY (own record)
         self.removed = []   # bare names dropped or renamed away (candidates for re-adding)
+        self.pk_renames = []  # (normalised old name, new name text): primary_key follows RENAME COLUMN
         self.touched = False
         self.relaxed = set()  # entity keys outside columns / alter / index that a statement of this script may legitimately change
 
@@ -99,46 +99,55 @@ class _Table:
                 return i
         return None
 
-    def has_ghost(self):
-        present = set(self.names())
-        return any(_norm(e["name"]) not in present for e in self.added)
-
 
 class _Script:
-    def __init__(self, tables, sep="\n"):
-        self.tables, self.stmts, self.defects, self.sep = tables, [], set(), sep
+    def __init__(self, tables, sep="\n", lower_kw=False):
+        """tables: entity-producing statements (CREATE TABLE, or a DROP TABLE stand-in) in script order; seq: the script"""
+        self.tables, self.stmts, self.sep, self.lower_kw = list(tables), [], sep, lower_kw
+        self.seq = [("base", t.create) for t in self.tables]
+
+    def define(self, t):
+        """one more entity-producing statement at the current position of the script"""
+        self.tables.append(t)
+        self.seq.append(("base", t.create))
 
     def creates(self):
-        return self.sep.join(t.create for t in self.tables)
+        return self.sep.join(x for k, x in self.seq if k == "base")
 
     def text(self):
-        return self.sep.join([t.create for t in self.tables] + self.stmts)
+        return self.sep.join(x for _, x in self.seq)
+
+    def _kw(self, words):
+        """COLUMN / RENAME / MODIFY (and TO) in lower case when the script asks for it"""
+        return words.lower() if self.lower_kw else words
+
+    def _stmt(self, text):
+        self.stmts.append(text)
+        self.seq.append(("stmt", text))
 
     # ---- statements: each appends the text and applies the declared effect to the model of table t
     def _alter(self, t, ref, body, prefix=""):
         t.touched = True
-        self.stmts.append("ALTER TABLE %s%s %s;" % (prefix, ref, body))
+        self._stmt("ALTER TABLE %s%s %s;" % (prefix, ref, body))
 
     def add(self, t, ref, name_txt, ti, oi, prefix=""):
-        if t.has_ghost():
-            self.defects.add(DEFECT_GHOST)
         text, v = _col(name_txt, ti, OPTS_ALTER, oi)
         t.cols.append(v)
-        t.added.append(v)
         self._alter(t, ref, "ADD " + text, prefix)
 
     def drop(self, t, ref, col_txt, prefix=""):
         i = t.find(col_txt)
         t.removed.append(_norm(t.cols[i]["name"]))
         del t.cols[i]
-        self._alter(t, ref, "DROP COLUMN " + col_txt, prefix)
+        self._alter(t, ref, "DROP %s %s" % (self._kw("COLUMN"), col_txt), prefix)
 
     def rename(self, t, ref, col_txt, new_txt, prefix=""):
         i = t.find(col_txt)
         t.removed.append(_norm(t.cols[i]["name"]))
+        t.pk_renames.append((_norm(t.cols[i]["name"]), new_txt))
         t.cols[i]["name"] = new_txt
         t.cols[i]["loose"] = False
-        self._alter(t, ref, "RENAME COLUMN %s TO %s" % (col_txt, new_txt), prefix)
+        self._alter(t, ref, "%s %s %s %s" % (self._kw("RENAME COLUMN"), col_txt, self._kw("TO"), new_txt), prefix)
 
     def modify(self, t, ref, syntax, col_txt, ti, oi, prefix=""):
         i = t.find(col_txt)
@@ -146,7 +155,8 @@ class _Script:
         # the statement does not say which spelling the modified column keeps when the two differ
         v["loose"] = col_txt != t.cols[i]["name"] or t.cols[i]["loose"]
         t.cols[i] = v
-        self._alter(t, ref, "%s %s" % (MODIFY_SYNTAX[syntax], text), prefix)
+        kw = MODIFY_SYNTAX[syntax]
+        self._alter(t, ref, "%s %s" % ("ALTER " + self._kw("COLUMN") if syntax == 2 else self._kw(kw), text), prefix)
 
     def unique(self, t, ref, cname, cols, prefix=""):
         t.uniques.append(dict(constraint_name=cname, columns=list(cols)))
@@ -175,12 +185,9 @@ class _Script:
         self._alter(t, ref, "ADD %sDEFAULT %s FOR %s" % ("CONSTRAINT %s " % cname if cname else "", value, ("," if tight else ", ").join(cols)), prefix)
 
     def fkey(self, t, ref, cname, cols, rschema, rtable, rcols, on_delete=None, on_update=None, update_first=False, prefix=""):
-        if t.has_ghost():
-            self.defects.add(DEFECT_GHOST)
         t.relaxed.add("constraints")
         for c, r in zip(cols, rcols):
             t.fks.append(dict(name=c, constraint_name=cname, table=rtable, schema=rschema, on_delete=on_delete, on_update=on_update, column=r))
-            t.added.append(dict(name=c))
         on = []
         if on_delete:
             on.append("ON DELETE " + on_delete)
@@ -195,11 +202,9 @@ class _Script:
         t.touched = True
         det = []
         for n, d in cols:
-            if d is not None and d.upper() == "DESC" and d != "DESC":
-                self.defects.add(DEFECT_INDEX_CASE)
             det.append([n, (d or "ASC").upper()])
         t.index.append(dict(index_name=iname, unique=unique, columns=[n for n, _ in cols], detailed=det))
-        self.stmts.append("CREATE %sINDEX %s ON %s (%s);" % ("UNIQUE " if unique else "", iname, ref,
+        self._stmt("CREATE %sINDEX %s ON %s (%s);" % ("UNIQUE " if unique else "", iname, ref,
                                                              ("," if tight else ", ").join(n + (" " + d if d else "") for n, d in cols)))
 
 
